@@ -55,6 +55,8 @@ def program(f, variant):
     grp = strip(render(f, lambda a: "f%s" % a))
     if variant == "await":
         return flows + "flow main\n  await %s\n  send Done()\n  match Never()\n" % grp
+    if variant == "bare":       # the group as a statement of its own (implicit await)
+        return flows + "flow main\n  %s\n  send Done()\n  match Never()\n" % grp
     if variant == "when":
         return flows + "flow main\n  when %s\n    send Done()\n  match Never()\n" % grp
     if variant == "when-events":
@@ -115,7 +117,7 @@ def _worker(job):
 
         for pick in ([0, 1] if has_or else [0]):
             dfs(base, [], 0, pick)
-        if variant in ("await", "when") and not err[0]:
+        if variant in ("await", "when", "bare") and not err[0]:
             # the same statement with idle time between the events (finished flows are discarded by the clean-up)
             dfs(base, [], 0, 0, aged=True, depth_cap=3)
         clock.offset = 0.0
@@ -135,7 +137,7 @@ def run(ctx):
     states, trans = r.distinct, r.generated
     chosen = formulas + repeated
     njudged = len(formulas)
-    variants = ["match", "await", "when", "when-events"]
+    variants = ["match", "await", "when", "when-events", "bare"]
     items = []
     for fi, f in enumerate(chosen):
         n = _leaves(f)
